@@ -139,6 +139,9 @@ class Impl13:
                 self.stack.redo()
         except IndexError:
             st = 3
+        except Exception as exc:     # a command that cannot be executed / undone / redone at all
+            st = 9
+            bad.append('%s raised %s: %s' % (o[0], type(exc).__name__, str(exc)[:120]))
         # bookkeeping identical to c06.Impl.apply for removed datasets / groups
         self.register_new_groups()
         now = list(self.im.dc.data)
@@ -176,7 +179,7 @@ class Impl13:
                     if d:
                         bad.append('redo did not restore the state before the undo: ' + d)
                 self.undo_snaps.append(before)
-        else:
+        elif st == 3:
             d = obs_diff(before, after)
             if d:
                 bad.append('a refused undo/redo changed the state: ' + d)
